@@ -270,24 +270,32 @@ theorem single_entry_view_state (e : PreConf) (b : Nat) (baseAt : Nat → Option
       else .error .notFound :=
   ⟨rfl, single_view_state e b baseAt⟩
 
-/-! ### ill-formed wire updates (a defect of juno, see notes/C20.md)
+/-! ### wire updates and the adapters' contract
 
-Full-strength statement, false of juno: `∀ u : RawUpdate, zipRaw u ≠ .panics` — whatever the
-data source hands to `ApplyUpdate`, the single writer goroutine rejects or applies it. The adapters
-index receipts and state diffs by transaction without checking lengths / nil; only the feeder
-client validates. -/
+The adapters index receipts and state diffs by transaction and dereference `L1GasPrice` without
+checks; their stated contract is `PreConfirmedUpdateEnvelope.Validate`, which every `DataSource`
+of juno applies before an update can reach `ApplyUpdate` (`clients/feeder`). -/
 
-/-- `_partial`: a well-shaped update (three slices of one length, no nil element) of adaptable
-transactions is never a panic, and yields exactly its transactions. Missing: any other shape. -/
-theorem wire_update_never_panics_partial (ws : List WireTx) (hgood : ∀ w ∈ ws, w.bad = false) :
-    zipRaw (RawUpdate.ofWire ws) = .ok ws :=
-  zipRaw_wellshaped ws hgood
+/-- **Every update that passes `Validate` is adapted without a panic**: for any envelope — any
+lengths of the three slices, nil / zero-valued elements, missing header fields — if
+`Validate()` returns nil then the adapter loop and header construction end in an entry or in the
+error of `AdaptTransaction`, never in an out-of-range index or nil dereference. -/
+theorem validated_update_never_panics (e : RawEnvelope) (h : e.validate = true) :
+    (∃ ws, e.adapt = .ok ws) ∨ e.adapt = .adaptError :=
+  validated_adapt_no_panic e h
 
-/-- **Negation witness** (replay `applyupdate-panics-on-malformed-update`): one transaction, no
-receipt. -/
-theorem wire_update_never_panics_fails :
-    ∃ u : RawUpdate, (zipRaw u matches .panics) = true :=
-  ⟨{ txs := [({ hash := 1, tag := 1 }, false)], receipts := [], diffs := [some {}] }, by decide⟩
+/-- The hypothesis is what carries it: an update that `Validate` refuses (one transaction, no
+receipt) does panic the adapter — outside the contract, the harness counts such cases
+(`outside-contract-…`) and checks that `Validate` refuses them. -/
+theorem unvalidated_update_can_panic :
+    ∃ e : RawEnvelope, e.validate = false ∧ (e.adapt matches .panics) = true :=
+  ⟨.delta "r" { txs := [some ({ hash := 1, tag := 1 }, false)], receipts := [], diffs := [some {}] },
+    by decide, by decide⟩
+
+-- `Validate` accepts well-shaped updates (non-vacuity of the hypothesis)
+example : (RawEnvelope.delta "r" (RawUpdate.ofWire
+    [{ tx := { hash := 1, tag := 1 }, bad := false, rcpt := { txHash := 1, tag := 1, events := 0 }, diff := {} }])).validate
+    = true := by decide
 
 /-! ### sequencer mode: the view over the block under construction (a defect of juno)
 
